@@ -157,8 +157,6 @@ Fixpoint has_result2 (t : rty) : bool :=
   | RTuple ts => existsb has_result2 ts
   end.
 
-Definition kf_c07_result_map (p : project) : bool := existsb (fun t => kf_result_ok_has_comma (rty_of t)) (all_types p).
-Definition kf_c07_tuple_generic (p : project) : bool := existsb (fun t => kf_tuple_elem_has_comma (rty_of t)) (all_types p).
 Definition kf_c07_field_result (p : project) : bool := existsb (fun t => has_result2 (rty_of t)) (field_types p).
 (* a serde type whose name the harvester's final test rejects (lower-case or underscore initial, or a
    name of the built-in table) is never looked for *)
